@@ -1118,3 +1118,168 @@ def r01_12_era_calculator_pairing(ctx: Ctx) -> RuleResult:
             else:
                 rr.fail(f.qual, f"calendar constructed with mismatched parts: {why}; the era API then uses another calendar's year bounds", ctx.loc(f, n))
     return rr
+
+
+# ------------------------------------------------------------------------------------------- R01.14 Gregorian 1900-2100 tables
+
+
+def _gregorian_tables(ctx: Ctx):
+    """The two tables _GregorianYearMonthDayCalculator.__init__ fills for 1900-2100, obtained by interpreting its loop with the
+    restricted table folder; calls on self (`_calculate_start_of_year_days`, `_get_days_in_month`) are evaluated by the abstract
+    interpreter on exact arguments."""
+    from ..tablefold import TableFolder, _Unsupported
+
+    if "c01.gregorian_tables" in ctx.cache:
+        return ctx.cache["c01.gregorian_tables"]
+    M = ctx.M
+    c = M.cls("_GregorianYearMonthDayCalculator")
+    ci = next(x for x in calculator_instances(ctx) if x.cls == c.name)
+    init = M.find_method(c, "__init__")
+    loops = [s for s in init.body if isinstance(s, ast.For)]
+    if len(loops) != 1:
+        raise AnalysisError(f"{init.qual}: expected one table-filling loop, found {len(loops)}")
+    tables: dict[str, list] = {}
+    memo: dict[tuple, int] = {}
+
+    class Folder(TableFolder):
+        def ev(self, e, env):  # noqa: ANN001
+            if isinstance(e, ast.Attribute) and isinstance(e.value, ast.Name) and e.value.id in ("self", "cls"):
+                nm = mangle(c.name, e.attr)
+                if nm in tables:
+                    return tables[nm]
+                v = M.fold_class_const(c.name, nm)
+                if isinstance(v, list):
+                    tables[nm] = list(v)
+                    return tables[nm]
+                if v is not UNKNOWN and v is not None:
+                    return v
+                if nm in c.assigns:
+                    # a table created as list(range(n)) in the class body: n placeholder slots
+                    t = super().ev(c.assigns[nm], {})
+                    if isinstance(t, list):
+                        tables[nm] = list(t)
+                        return tables[nm]
+                    return t
+            return super().ev(e, env)
+
+        def call(self, call, env):  # noqa: ANN001
+            fx = call.func
+            if isinstance(fx, ast.Attribute) and isinstance(fx.value, ast.Name) and fx.value.id == "self":
+                args = tuple(self.ev(a, env) for a in call.args)
+                key = (fx.attr, args)
+                if key not in memo:
+                    g = M.find_method(c, fx.attr)
+                    if g is None:
+                        raise _Unsupported(fx.attr)
+                    params = {p.arg: Iv(a, a) for p, a in zip(g.value_params, args)}
+                    _, rets = _call_method(ctx, c, fx.attr, Obj(ci.cls, dict(ci.obj.fields)), params, {})
+                    vals = {int(v.lo) for v, _ in rets if isinstance(v, Iv) and v.lo == v.hi}
+                    if len(vals) != 1:
+                        raise _Unsupported(f"{fx.attr}{args} not exact")
+                    memo[key] = vals.pop()
+                return memo[key]
+            return super().call(call, env)
+
+    tf = Folder(M, c)
+    tf.helpers = {}
+    try:
+        tf.exec_stmt(loops[0], {})
+    except _Unsupported as e:
+        raise AnalysisError(f"{init.qual}: table-filling loop not interpretable: {e}") from None
+    ctx.cache["c01.gregorian_tables"] = (c, ci, tables)
+    return ctx.cache["c01.gregorian_tables"]
+
+
+@rule("C01")
+def r01_14_gregorian_fast_tables(ctx: Ctx) -> RuleResult:
+    """For 1900-2100 the ISO / Gregorian calculator answers year starts, date -> day number and day number -> date from two tables
+    filled in __init__.  The fill loop is interpreted (restricted table folder; the calculator's own arithmetic evaluated exactly),
+    the tables are handed to the constant folder, and the three fast paths are then evaluated by the abstract interpreter and
+    compared with the arithmetic they replace: year start for every table year, date -> day number for the first / last day of
+    every month of sampled years, and day number -> date for the same days (both directions, so the pair is a bijection there)."""
+    rr = RuleResult("R01.14", "Gregorian 1900-2100 fast paths (year start, date -> day number, day number -> date) agree with the calculator's arithmetic on the interpreted tables", min_instances=3)
+    M = ctx.M
+    c, ci, tables = _gregorian_tables(ctx)
+    first = M.fold_class_const(c.name, mangle(c.name, "__FIRST_OPTIMIZED_YEAR"))
+    last = M.fold_class_const(c.name, mangle(c.name, "__LAST_OPTIMIZED_YEAR"))
+    if not (isinstance(first, int) and isinstance(last, int)) or len(tables) != 2:
+        raise AnalysisError("Gregorian optimised range / tables not found")
+    saved = {}
+    for nm, tbl in tables.items():
+        saved[nm] = M._fold_memo.get((id(c), nm))
+        M._fold_memo[(id(c), nm)] = list(tbl)
+    try:
+        so = Obj(ci.cls, dict(ci.obj.fields))
+        gj = M.cls("_GJYearMonthDayCalculator")
+
+        def exact(rets):
+            vals = {int(v.lo) for v, _ in rets if isinstance(v, Iv) and v.lo == v.hi}
+            return vals.pop() if len(vals) == 1 and all(isinstance(v, Iv) and v.lo == v.hi for v, _ in rets) else None
+
+        def arithmetic_start(y: int) -> int | None:
+            _, r = _call_method(ctx, c, "_calculate_start_of_year_days", so, {"year": Iv(y, y)}, {})
+            return exact(r)
+
+        # (a) year starts
+        rr.inst()
+        bad = None
+        for y in range(first, last + 1):
+            _, r = _call_method(ctx, c, "_get_start_of_year_in_days", so, {"year": Iv(y, y)}, {})
+            a, b = exact(r), arithmetic_start(y)
+            rr.states += 2
+            if a is None or b is None or a != b:
+                bad = bad or (y, a, b)
+        if bad is None:
+            rr.ok({"year starts": f"{first}..{last}"})
+        else:
+            rr.fail(f"{c.name}._get_start_of_year_in_days", f"year {bad[0]}: the table gives {bad[1]}, the arithmetic {bad[2]}", f"{c.mod.rel}:{c.node.lineno}")
+        # (b) / (c) first and last day of every month of sampled years
+        years = sorted({first, first + 1, first + 3, first + 4, 1999, 2000, 2001, 2024, last - 1, last})
+        fwd = M.find_method(c, "_get_days_since_epoch")
+        dec = M.find_method(c, "_get_gregorian_year_month_day_calendar_from_days_since_epoch")
+        bad_f = bad_d = None
+        got_box: list = []
+        stubs = {"_YearMonthDayCalendar._ctor": (lambda a, k, r: (got_box.append((k.get("year"), k.get("month"), k.get("day"))), Obj("_YearMonthDayCalendar"))[1])}
+        for y in years:
+            s0 = arithmetic_start(y)
+            for m in range(1, 13):
+                _, r1 = _call_method(ctx, c, "_get_days_from_start_of_year_to_start_of_month", so, {"year": Iv(y, y), "month": Iv(m, m)}, {})
+                _, r2 = _call_method(ctx, c, "_get_days_in_month", so, {"year": Iv(y, y), "month": Iv(m, m)}, {})
+                off, ln = exact(r1), exact(r2)
+                for d in (1, ln):
+                    if s0 is None or off is None or ln is None:
+                        bad_f = bad_f or (y, m, d, "not evaluable", None)
+                        continue
+                    want = s0 + off + d - 1
+                    ymd = Obj("_YearMonthDay", {"_year": Iv(y, y), "_month": Iv(m, m), "_day": Iv(d, d)})
+                    _, r3 = _call_method(ctx, c, "_get_days_since_epoch", so, {fwd.value_params[0].arg: ymd}, {})
+                    got = exact(r3)
+                    rr.states += 1
+                    if got != want:
+                        bad_f = bad_f or (y, m, d, got, want)
+                    got_box.clear()
+                    I = interp(ctx)
+                    I.max_depth = 6
+                    I.stubs = stubs
+                    I.analyse(dec, params={dec.value_params[0].arg: Iv(want, want)})
+                    rr.states += 1
+                    triples = {(int(a.lo), int(b.lo), int(cc.lo)) for a, b, cc in got_box if all(isinstance(x, Iv) and x.lo == x.hi for x in (a, b, cc))}
+                    if triples != {(y, m, d)}:
+                        bad_d = bad_d or (want, sorted(triples), (y, m, d))
+        rr.inst()
+        if bad_f is None:
+            rr.ok({"date -> day number": f"first / last day of every month of {years}"})
+        else:
+            rr.fail(fwd.qual, f"{bad_f[0]}-{bad_f[1]:02d}-{bad_f[2]:02d}: the table path gives day number {bad_f[3]}, the arithmetic {bad_f[4]}", ctx.loc(fwd))
+        rr.inst()
+        if bad_d is None:
+            rr.ok({"day number -> date": "same days, decoded back"})
+        else:
+            rr.fail(dec.qual, f"day number {bad_d[0]} decodes to {bad_d[1]}, it is {bad_d[2]}", ctx.loc(dec))
+    finally:
+        for nm, old in saved.items():
+            if old is None:
+                M._fold_memo.pop((id(c), nm), None)
+            else:
+                M._fold_memo[(id(c), nm)] = old
+    return rr
